@@ -90,6 +90,28 @@ func literalVerbatim(x *Ctx) {
 			}
 		}
 		x.C.Obl("C10.R4", "verbatim:"+name, x.pos(f), fmt.Sprintf("each of the %d scalars handed to a node constructor is the input value, reached through assertions, conversions and reflect accessors only", n), bad == "" && n > 0, dedupLines(bad))
+		// and no node is handed out that was built beforehand for "the same" value: equality of Go values is coarser
+		// than identity of IPLD values (-0.0 == 0.0, NaN payloads)
+		shared := ""
+		for _, g := range fns {
+			for _, b := range g.Blocks {
+				for _, in := range b.Instrs {
+					u, ok := in.(*ssa.UnOp)
+					if !ok {
+						continue
+					}
+					gl, ok := u.X.(*ssa.Global)
+					if !ok || gl.Pkg == nil || !strings.HasPrefix(gl.Pkg.Pkg.Path(), load.Module) {
+						continue
+					}
+					ts := u.Type().String()
+					if strings.HasSuffix(ts, "datamodel.Node") || strings.HasSuffix(ts, "ipld.Node") || strings.Contains(ts, "basicnode.") {
+						shared += fmt.Sprintf("%s: %s reads the package-level node %s: a value that merely compares equal to the one it was built from would be replaced by it\n", x.P.Pos(in.Pos()), load.ShortName(g), gl.Name())
+					}
+				}
+			}
+		}
+		x.C.Obl("C10.R4", "fresh-nodes:"+name, x.pos(f), "nodes are built from the caller's value, not taken from package-level variables", shared == "", dedupLines(shared))
 	}
 }
 
